@@ -37,6 +37,12 @@ var apiTexts = map[string]string{
 	// texts without a value: the load succeeds and leaves an empty schema behind
 	"blank":   " \n",
 	"comment": "# nothing but a user comment",
+	// rejected schemas with CR-only line ends and the defect on a later line (the diagnostics carry line and column)
+	"badvalueCR": "# " + strings.Repeat("a long first line ", 40) + "\r{\r  \"a\": 1 // {min: 2}\r}",
+	"badscanCR":  "{\r  \"a\": 1,\r  \"b\": tru\r}",
+	"badrefLF":   "{\n  \"a\": 1,\n  \"b\": @nowhere\n}",
+	// a type with two defective choices: four internal (unnamed) types, the first defect in source order is reported
+	"typeC": "{\n  \"p\": @n1 | @n2,\n  \"q\": @n3 | @n4\n}",
 }
 
 func apiBigText() string {
@@ -202,7 +208,7 @@ func apiDefectSources(content string, regs []string) int {
 	}
 	for _, c := range all {
 		switch c {
-		case "badscan", "badrule", "badvalue", "blank", "comment":
+		case "badscan", "badrule", "badvalue", "blank", "comment", "typeC", "badvalueCR", "badscanCR", "badrefLF":
 			n++
 		case "usesT":
 			if !hasT {
